@@ -13,7 +13,7 @@ open Util
   gctx <hex>   the same on arbitrary bytes         → ok
   gti / gtix <hex>  metadata.go getTypeInfo
   a2c  <hex>   helpers.go apacheToCassandraType    → ok:<hex> -/
-def typeStr (fx : Bool) (ws : List String) : Option String :=
+def typeStr (ws : List String) : Option String :=
   match ws with
   | [op, h] =>
     match parseHex h with
@@ -21,50 +21,64 @@ def typeStr (fx : Bool) (ws : List String) : Option String :=
     | some bs =>
       let s := TypeStr.bytesOfHex bs
       match op with
-      | "ts" => some (TypeStr.renderOut TypeStr.renderResult (TypeStr.parseType fx s))
+      | "ts" => some (TypeStr.renderOut TypeStr.renderResult (TypeStr.parseType s))
       | "gct" => some (TypeStr.renderOut TypeStr.renderTy (TypeStr.getCassandraType s))
       | "gctx" => some (TypeStr.renderOut (fun _ => "") (TypeStr.getCassandraType s) |>.dropEndWhile (· == ':') |>.toString)
-      | "gti" => some (TypeStr.renderOut TypeStr.renderTy (TypeStr.getTypeInfoFx fx s))
-      | "gtix" => some (TypeStr.renderOut (fun _ => "") (TypeStr.getTypeInfoFx fx s) |>.dropEndWhile (· == ':') |>.toString)
-      | "a2c" => some ("ok:" ++ TypeStr.hexOf (TypeStr.apacheToCassandraTypeFx fx s))
+      | "gti" => some (TypeStr.renderOut TypeStr.renderTy (TypeStr.getTypeInfo s))
+      | "gtix" => some (TypeStr.renderOut (fun _ => "") (TypeStr.getTypeInfo s) |>.dropEndWhile (· == ':') |>.toString)
+      | "a2c" => some ("ok:" ++ TypeStr.hexOf (TypeStr.apacheToCassandraType s))
       | _ => none
   | _ => none
 
 /-- frame <proto> <resp 0|1> <flags> <op> <hex body> ; rows <proto> <flags> <hex body> ;
     hdr <hex wire> ; body <proto> <length> <flags> <hex avail> -/
-def frameOps (fx : Bool) (ws : List String) : Option String :=
+def frameOps (ws : List String) : Option String :=
   let bytes (h : String) : Option (List Nat) := (parseHex h).map (fun bs => bs.map (·.toNat))
   match ws with
   | ["frame", proto, resp, flags, op, h] =>
     match proto.toNat?, resp.toNat?, flags.toNat?, op.toNat?, bytes h with
     | some proto, some resp, some flags, some op, some body =>
       if FrameCrash.bit flags 0 then some "err" else
-      some (match FrameCrash.parseFrame fx (proto % 128) (resp == 1) flags op body with
+      some (match FrameCrash.parseFrame (proto % 128) (resp == 1) flags op body with
         | .ok fr _ => "ok:" ++ fr.kind
         | .err _ => "err"
         | .crash s _ => "crash:" ++ s.label)
     | _, _, _, _, _ => some "bad-op"
   | ["deep", what, depth] =>
     match depth.toNat? with
-    | some d => some (FrameCrash.deepOutcome fx what d)
+    | some d => some (FrameCrash.deepOutcome what d)
     | none => some "bad-op"
   | ["prim", name] =>
-    some (FrameCrash.sourceFact fx name)
+    some (FrameCrash.sourceFact name)
   | ["falloc", proto, flags, op, h] =>
     -- allocation class of one parse: the model counts the `make`/`string` calls sized from the wire
     match proto.toNat?, flags.toNat?, op.toNat?, bytes h with
     | some proto, some flags, some op, some body =>
-      some (match FrameCrash.parseFrame fx (proto % 128) true flags op body with
+      some (match FrameCrash.parseFrame (proto % 128) true flags op body with
         | .crash s _ => "crash:" ++ s.label
         | r => if r.allocated < 2097152 then "alloc:small" else if r.allocated ≥ 50331648 then "alloc:big" else "alloc:mid")
     | _, _, _, _ => some "bad-op"
+  | ["alloc", "rows", _consumer, proto, flags, h] =>
+    -- allocation class of a row consumer (scan | scanner | mapscan | slicemap | rowdata) over a RESULT body:
+    -- `ok` = the model's allocation counter is within its bound (always, by C05.C05_rows_alloc_bound)
+    match proto.toNat?, flags.toNat?, bytes h with
+    | some proto, some flags, some body =>
+      if FrameCrash.bit flags 0 then some "ok" else
+      some (match FrameCrash.parseFrame (proto % 128) true flags 8 body with
+        | .ok (.rows m n) st =>
+          if m.cols.isEmpty then "ok"
+          else if RowsCrash.consumeUnits m n st.buf ≤ RowsCrash.consumeBound m st.buf then "ok"
+          else "over:" ++ toString (RowsCrash.consumeUnits m n st.buf)
+        | .crash s _ => "crash:" ++ s.label
+        | _ => "ok")
+    | _, _, _ => some "bad-op"
   | ["rows", proto, flags, h] =>
     match proto.toNat?, flags.toNat?, bytes h with
     | some proto, some flags, some body =>
       if FrameCrash.bit flags 0 then some "err" else
-      some (match FrameCrash.parseFrame fx (proto % 128) true flags 8 body with
+      some (match FrameCrash.parseFrame (proto % 128) true flags 8 body with
         | .ok (.rows m n) st =>
-          (match RowsCrash.scanAll fx m n st.buf with
+          (match RowsCrash.scanAll m n st.buf with
            | .ok k => "ok:rows:" ++ toString k
            | .capped => "ok:rows:capped"
            | .err k => "err:rows:" ++ toString k
@@ -77,7 +91,7 @@ def frameOps (fx : Bool) (ws : List String) : Option String :=
     match proto.toNat?, flags.toNat?, bytes h with
     | some proto, some flags, some body =>
       if FrameCrash.bit flags 0 then some "err" else
-      some (match FrameCrash.parseFrame fx (proto % 128) true flags 8 body with
+      some (match FrameCrash.parseFrame (proto % 128) true flags 8 body with
         | .ok (.rows m _) _ =>
           (match RowsCrash.rowData m.cols 0 with
            | .ok k => "ok:newrow:" ++ toString k
@@ -105,38 +119,33 @@ def frameOps (fx : Bool) (ws : List String) : Option String :=
     | _, _, _ => some "bad-op"
   | _ => none
 
-/-- driver state: which variant of the models answers — `false` = the code as it is (the default,
-what props/C05.json's theorems are about), `true` = the code with props/C05.fix-*.diff applied
-(Model/*Fixed.lean, Proofs/C05Fixed.lean). The op line `mode fixed` (emitted first by the harness when
-VERIF_C05_FIXED=1) switches; the integrator flips `init` after committing the fixes. -/
-def step (fx : Bool) (ws : List String) : Bool × String :=
+/-- stateless: every op line is answered on its own (the driver state is `Unit`) -/
+def step (_ : Unit) (ws : List String) : Unit × String :=
   match ws with
-  | ["mode", "fixed"] => (true, "mode:fixed")
-  | ["mode", "current"] => (false, "mode:current")
   -- the end-to-end EVENT scenario (STATUS_CHANGE "UP", inet size 16, 2 bytes, on stream -1 of a live
-  -- v4 connection) is answered by the frame model: the witness of C05.C05_cex_frame_event_short_inet
+  -- v4 connection) is answered by the frame model: the first witness of
+  -- C05.C05_former_frame_witnesses_are_errors (KF-C05-5: a parse error since the repair)
   | ["e2e", "event-short-inet"] =>
-    (fx, match FrameCrash.parseFrame fx 4 true 0 0x0C
+    ((), match FrameCrash.parseFrame 4 true 0 0x0C
               [0, 13, 83, 84, 65, 84, 85, 83, 95, 67, 72, 65, 78, 71, 69, 0, 2, 85, 80, 16, 254, 128] with
-         | .crash .inetBody _ => "crash:framer.readInetAdressOnly:slice"
          | .crash s _ => "crash:" ++ s.label
          | .err _ => "parse-error"
          | .ok _ _ => "survived")
   | _ =>
-    (fx, match typeStr fx ws with
+    ((), match typeStr ws with
        | some a => a
        | none =>
-         match frameOps fx ws with
+         match frameOps ws with
          | some a => a
          | none =>
            -- disp / beh / disparms / dispctx / dispsites / dispkinds / dispfact / e2e: Model/Dispatch.lean
-           match Dispatch.answerFx fx ws with
+           match Dispatch.answer ws with
            | some a => a
            | none =>
              -- val <proto> <type> <dest> <hex|nil|->: Model/CrashValue.lean
-             match CrashValue.answerFx fx ws with
+             match CrashValue.answer ws with
              | some a => a
              | none => "bad-op")
 
-def init : Bool := false
+def init : Unit := ()
 end Driver.C05
